@@ -648,6 +648,10 @@ func genXRBlock(r *rng, kind int, sz int) rtcp.ReportBlock {
 	}
 	b := &rtcp.UnknownReportBlock{Bytes: r.spareBytes(4 * n)}
 	b.XRHeader.BlockType = rtcp.BlockTypeType(8 + r.intn(248))
+	if r.chance(4) {
+		// an opaque block may carry any type number, including one the library knows (or 0)
+		b.XRHeader.BlockType = rtcp.BlockTypeType(r.intn(8))
+	}
 	b.XRHeader.TypeSpecific = rtcp.TypeSpecificField(r.u8())
 	return b
 }
